@@ -12,9 +12,10 @@ import "google.golang.org/protobuf/reflect/protoreflect"
 // Nothing of the package under test is used: the constants are the numbers from descriptor.proto.
 
 type lvRef struct {
-	p    []int32
-	lens []int
-	ok   bool
+	p        []int32
+	lens     []int
+	ok       bool
+	jsonName bool // the path ends in FieldDescriptorProto.json_name (10)
 }
 
 func (r *lvRef) emit(n int) { r.lens = append(r.lens, n) }
@@ -22,10 +23,10 @@ func (r *lvRef) emit(n int) { r.lens = append(r.lens, n) }
 // mustEnd: the path must end exactly at length n.
 func (r *lvRef) mustEnd(n int) { r.ok = len(r.p) == n }
 
-func lvRefAssociated(p []int32) (bool, []int) {
+func lvRefAssociated(p []int32) (bool, []int, bool) {
 	r := &lvRef{p: p}
 	r.file()
-	return r.ok, r.lens
+	return r.ok, r.lens, r.jsonName
 }
 
 func (r *lvRef) file() {
@@ -169,6 +170,9 @@ func (r *lvRef) field(i int) {
 	switch p[i+1] {
 	case 1, 2, 3, 4, 5, 6: // name, extendee, number, label, type, type_name
 		r.mustEnd(i + 2)
+	case 10: // json_name: an attribute of the field like its name (bufprotosource.Field.JSONNameLocation)
+		r.mustEnd(i + 2)
+		r.jsonName = r.ok
 	case 7: // default_value
 		r.emit(i + 2)
 		r.mustEnd(i + 2)
@@ -305,7 +309,10 @@ func VerifLemma_C06C_AssociatedSourcePaths() {
 	for i := 0; i < n; i++ {
 		verifAssert(p[i] == saved[i], "input path is not modified")
 	}
-	ok, lens := lvRefAssociated(saved)
+	ok, lens, jsonName := lvRefAssociated(saved)
+	if verifKnown("F21-json-name-source-path", jsonName) {
+		return
+	}
 	if err != nil {
 		verifCover("rejected")
 		verifAssert(!ok, "a path of the reference grammar is accepted")
